@@ -12,15 +12,21 @@ ReachSet(Succ, S, k) ==
 
 Reach(Nodes, Succ, a) == ReachSet(Succ, {a}, Cardinality(Nodes))
 
+(* the mutual-reachability class of a:                                        *)
+(*   {b \in Nodes : b reachable from a /\ a reachable from b}                 *)
+(* (Reach(a) is named once: TLC would re-evaluate it for every b)            *)
 Component(Nodes, Succ, a) ==
-  {b \in Nodes : b \in Reach(Nodes, Succ, a) /\ a \in Reach(Nodes, Succ, b)}
+  LET Ra == Reach(Nodes, Succ, a)
+  IN {b \in Nodes : b \in Ra /\ a \in Reach(Nodes, Succ, b)}
 
 Components(Nodes, Succ) == {Component(Nodes, Succ, a) : a \in Nodes}
 
 (* contains a cycle: more than one node, or a self-loop *)
 Cyclic(Succ, C) == Cardinality(C) > 1 \/ \E a \in C : a \in Succ[a]
 
-Expected(Nodes, Succ, trivial) ==
-  IF trivial THEN Components(Nodes, Succ)
-  ELSE {C \in Components(Nodes, Succ) : Cyclic(Succ, C)}
+(* what sccs(trivial) has to yield, given the classes Cs of the graph *)
+ExpectedOf(Cs, Succ, trivial) ==
+  IF trivial THEN Cs ELSE {C \in Cs : Cyclic(Succ, C)}
+
+Expected(Nodes, Succ, trivial) == ExpectedOf(Components(Nodes, Succ), Succ, trivial)
 =============================================================================
